@@ -1,7 +1,7 @@
 (* C17/Props.v — property-level theorems only (statements + `exact`), each followed by Print Assumptions.
    Tags [FULL]/[PARTIAL]/[REFUTED] are read by bin/check. *)
 From Coq Require Import List NArith Permutation.
-From BLB Require Import Lib.Shuffle C17.Model C17.Proofs C17.Index C17.Spread C17.Top C17.Names C17.NamesEnc.
+From BLB Require Import Lib.Shuffle C17.Model C17.Proofs C17.Index C17.Spread C17.Top C17.Names C17.NamesEnc C17.Beats.
 Import ListNotations.
 
 (* [FULL] for every reverse index whose levels partition the candidate set, every existing/down set, every
@@ -110,3 +110,15 @@ Theorem placement_through_rack_based_domains_meets_spec :
                 (map (chain_of (rack_topology names)) ex0) ex0 down o perms) = V_OK.
 Proof. exact rack_placement_ok. Qed.
 Print Assumptions placement_through_rack_based_domains_meets_spec.
+
+(* [FULL] recvHeartbeat (the monitor state the candidate rule reads): after ANY sequence of heartbeats, a tractserver is a
+   placement candidate iff its LAST report makes it one (healthy at `now` by that report's time, room above the floor
+   by that report's load); no earlier report - in particular an earlier roomy one before a report of no space at all -
+   has any influence.  The real monitor is driven with such histories on every run (op 6) *)
+Theorem last_heartbeat_decides_candidacy :
+  forall cfg bs a,
+    In a (candidates cfg (apply_beats bs)) <->
+    exists pre b post, bs = pre ++ b :: post /\ addr_of b = a /\ can_host cfg (beat_data b) = true /\
+                       Forall (fun b' => addr_of b' <> a) post.
+Proof. exact candidate_depends_on_last_beat. Qed.
+Print Assumptions last_heartbeat_decides_candidacy.
